@@ -138,9 +138,11 @@ def predicate(case, stats):
     bad = dangling_refs(json.loads(json.dumps(j1)))
     if bad:
         return [{"sub": "roundtrip", "kind": "J1-cannot-be-parsed-again:dangling-ref", "detail": bad, "J1": j1}]
+    reparsed = []
     try:
         for _ in range(2):
             elements = reparse(docs_[-1])
+            reparsed.append(elements)
             docs_.append(serialize_json(*elements))
     except SchemaParseError as exc:
         fails.append({"sub": "reparse", "kind": "reparse-refused:" + type(exc).__name__,
@@ -161,6 +163,21 @@ def predicate(case, stats):
             fails.append({"sub": "roundtrip", "kind": f"J{i}-differs-from-J{i + 1}", "before": docs_[i - 1],
                           "after": docs_[i]})
             break
+    # the element obtained from J1 is the element J1 was made from (a keyword value that the serialiser drops
+    # consistently is "lost" although J1 == J2)
+    from statham.schema.elements import Nothing as _Nothing
+
+    if reparsed and not fails and not isinstance(e1, _Nothing):
+        # (a top-level `false` is written as {"not": {}} - the documented dictionary shape - and comes back as
+        # Not(Element()): same meaning, another element)
+        e2 = reparsed[0][0]
+        try:
+            same = (e2 == e1) and (e1 == e2)
+        except Exception as exc:  # noqa: BLE001
+            same = "raised " + type(exc).__name__
+        if same is not True:
+            fails.append({"sub": "roundtrip", "kind": "element-parsed-from-J1-differs-from-the-element-J1-was-made-from",
+                          "detail": str(same), "first": repr(e1)[:300], "again": repr(e2)[:300], "J1": j1})
     # generated python
     py = observe.ser_python(*elements1)
     from statham.serializers.orderer import get_children
